@@ -99,6 +99,35 @@ func init() {
 			}
 			return []Value{Eq(a.Off, b.Off)}
 		},
+		// aliased(p, q): precondition "p and q are the same pointer"; only as a top-level conjunct of requires.
+		// At function entry it makes the two symbolic pointers denote one object; at call sites it is checked.
+		"aliased": func(s *State, fn *ssa.Function, args []Value, where string) []Value {
+			unwrap := func(v Value) *PtrV {
+				if iv, ok := v.(*IfaceV); ok && iv.Type.IsConst() {
+					v = iv.alts[int(iv.Type.Val)]
+				}
+				p, ok := v.(*PtrV)
+				if !ok {
+					unsup("aliased of %T", v)
+				}
+				return p
+			}
+			a, b := unwrap(args[0]), unwrap(args[1])
+			if s.entry == nil {
+				// evaluating requires of the function under verification
+				switch {
+				case a.Obj == nil && a.lazy != nil:
+					a.Obj, a.lazy = b.object(), nil
+				case b.Obj == nil && b.lazy != nil:
+					b.Obj, b.lazy = a.object(), nil
+				}
+				if a.object() != b.object() {
+					return []Value{And(a.Nil, b.Nil)}
+				}
+				return []Value{Eq(a.Nil, b.Nil)}
+			}
+			return []Value{s.ptrEq(a, b)}
+		},
 		"freshBytes": func(s *State, fn *ssa.Function, args []Value, where string) []Value {
 			a := args[0].(*SliceV)
 			if s.assuming > 0 {
@@ -227,6 +256,40 @@ func init() {
 				return []Value{App("logcallee_"+sanitize(want), BoolSort, e.N)}
 			}
 			return []Value{BoolConst(e.Callee == want)}
+		},
+		"logIsTo": func(s *State, fn *ssa.Function, args []Value, where string) []Value {
+			e := s.logEntry(args[0])
+			wr, ok := args[1].(*IfaceV)
+			if !ok {
+				unsup("logIsTo: %T", args[1])
+			}
+			return []Value{And(Eq(e.targetType(), wr.Type), Eq(e.targetHandle(), wr.Handle))}
+		},
+		"logIsBuf": func(s *State, fn *ssa.Function, args []Value, where string) []Value {
+			e := s.logEntry(args[0])
+			b := args[1].(*SliceV)
+			if e.BufObj == nil {
+				return []Value{App("logisbuf", BoolSort, e.N)}
+			}
+			return []Value{And(BoolConst(e.BufObj == b.object()), Eq(e.Off, b.Off), Eq(e.N, b.Len))}
+		},
+		"logDeadlineFresh": func(s *State, fn *ssa.Function, args []Value, where string) []Value {
+			e := s.logEntry(args[0])
+			d := asTerm(args[1])
+			if len(e.Args) < 1 {
+				return []Value{False}
+			}
+			tv, ok := e.Args[0].(*OpaqueV)
+			if !ok || tv.T == nil {
+				return []Value{False}
+			}
+			// the deadline is now+d for a time.Now() taken during this call and not before the previous logged call
+			for _, now := range s.nowCalls[e.NowsBefore:] {
+				if tv.T == App("time_add", USort("Time"), now, d) {
+					return []Value{True}
+				}
+			}
+			return []Value{False}
 		},
 		"logArgInt": func(s *State, fn *ssa.Function, args []Value, where string) []Value {
 			e := s.logEntry(args[0])
@@ -358,7 +421,7 @@ func init() {
 			p := args[0].(*SliceV)
 			n := s.freshVar("write.n", BV(64))
 			err := s.symValue(errorType(), "write.err")
-			s.log = append(s.log, LogEntry{Callee: "io.Writer.Write", Target: recv, Arr: s.sliceArr(p), Off: p.Off, N: p.Len, RetN: n, Err: err})
+			s.log = append(s.log, LogEntry{Callee: "io.Writer.Write", Target: recv, Arr: s.sliceArr(p), Off: p.Off, N: p.Len, RetN: n, Err: err, BufObj: p.object()})
 			return []Value{n, err}
 		},
 		"hash.Hash.Write": func(s *State, recv *IfaceV, args []Value, where string) []Value {
@@ -423,7 +486,8 @@ func init() {
 
 func connCall(name string) invokeFn {
 	return func(s *State, recv *IfaceV, args []Value, where string) []Value {
-		e := LogEntry{Callee: "net.Conn." + name, Target: recv, Args: args}
+		e := LogEntry{Callee: "net.Conn." + name, Target: recv, Args: args, NowsBefore: s.nowsAtLastLog}
+		s.nowsAtLastLog = len(s.nowCalls)
 		var res []Value
 		switch name {
 		case "Read", "Write":
@@ -432,6 +496,7 @@ func connCall(name string) invokeFn {
 			e.RetN, e.Err = n, err
 			if p, ok := args[0].(*SliceV); ok {
 				e.Arr, e.Off, e.N = s.sliceArr(p), p.Off, p.Len
+				e.BufObj = p.object()
 				if name == "Read" {
 					s.havocRegion(&Region{Obj: p.object(), Off: p.Off, Len: p.Len}, "conn.Read")
 				}
@@ -835,4 +900,18 @@ func ghostUF(s *State, fn *ssa.Function, args []Value, where string) []Value {
 		unsup("result type of %s", name)
 	}
 	return []Value{App(name, so, ts...)}
+}
+
+func (e *LogEntry) targetType() *Term {
+	if iv, ok := e.Target.(*IfaceV); ok {
+		return iv.Type
+	}
+	return App("logtarget_type", BV(32), e.N)
+}
+
+func (e *LogEntry) targetHandle() *Term {
+	if iv, ok := e.Target.(*IfaceV); ok {
+		return iv.Handle
+	}
+	return App("logtarget_handle", BV(64), e.N)
 }
